@@ -42,6 +42,12 @@ def Src.afterNexts : Nat → Src → Src
   | 0, s => s
   | k + 1, s => Src.afterNexts k s.afterNext
 
+/-- `if let Some(up) = it.peek_last() { up.end <= x } else { false }`. -/
+def endLe (last : Option Rng) (x : Nat) : Bool :=
+  match last with
+  | some up => decide (up.2 ≤ x)
+  | none => false
+
 /-! ### and -/
 
 /-- `AndRangeIter::new` quick rejections + `next` loop. -/
@@ -51,9 +57,7 @@ def andItems (l r : Src) : List Rng :=
   | _ :: _, [] => []
   | l0 :: lt, r0 :: rt =>
     -- `if let (Some(up_left), Some(low_right)) = (left_it.peek_last(), &right)`
-    let rej1 := match l.last with | some up => decide (up.2 ≤ r0.1) | none => false
-    let rej2 := match r.last with | some up => decide (up.2 ≤ l0.1) | none => false
-    if rej1 || rej2 then [] else interLoop (l0 :: lt) (r0 :: rt)
+    if endLe l.last r0.1 || endLe r.last l0.1 then [] else interLoop (l0 :: lt) (r0 :: rt)
 
 def andSizeHi (l r : Src) : Option Nat :=
   match l.hi, r.hi with
@@ -152,9 +156,9 @@ def minusItems (l r : Src) : List Rng :=
   | [], _ => []
   | l0 :: lt, [] => l0 :: lt
   | l0 :: lt, r0 :: rt =>
-    let rej1 := match l.last with | some up => decide (up.2 ≤ r0.1) | none => false
-    let rej2 := match r.last with | some up => decide (up.2 ≤ l0.1) | none => false
-    if rej1 || rej2 then [] else minusLoop (l0 :: lt) (r0 :: rt)
+    -- disjoint extents: `right` is dropped, the whole left operand is yielded
+    -- (repaired behaviour, /repo commit "fix: lazy minus returned an empty MOC ...")
+    if endLe l.last r0.1 || endLe r.last l0.1 then l0 :: lt else minusLoop (l0 :: lt) (r0 :: rt)
 
 def minusSrc (l r : Src) : Src :=
   { depth := max l.depth r.depth, items := minusItems l r, last := none, lo := 0,
